@@ -834,8 +834,8 @@ func (c *Ctx) localUpdate(v Val, proj []string, nv Val) Val {
 
 // allocatedFact: a reference obtained by a load was stored earlier, hence allocated before the current allocation pointer.
 func (c *Ctx) allocatedFact(s *State, ref string) {
-	if s == nil || ref == "rnil" {
-		return
+	if s == nil || ref == "rnil" || strings.Contains(ref, "!q") {
+		return // (terms mentioning a bound quantifier variable cannot be asserted at top level)
 	}
 	if s.refFacts == nil {
 		s.refFacts = map[string]bool{}
